@@ -1797,6 +1797,11 @@ fn agg_reference(acol: &ColSel, want: &[u64], img: &Img) -> AggAns {
             _ => None, // `_id` is not a stored column, `zz` does not exist
         })
         .collect();
+    agg_from_vals(acol, &vals)
+}
+
+/// the five aggregates of a list of column values (`None` = the row has no such column), folded in list order
+fn agg_from_vals(acol: &ColSel, vals: &[Option<Value>]) -> AggAns {
     let countcol = match acol {
         ColSel::Col(_) => format!("ok {}", vals.iter().filter(|v| matches!(v, Some(x) if *x != Value::Null)).count()),
         _ => "err col_not_found".to_string(),
@@ -2908,6 +2913,346 @@ fn depth_engine(rep: &mut Report, m: &mut Model, r: &mut Rng, n_cases: usize) {
     }
 }
 
+// ------------------------------------------------------------------ large selections: the rayon branch of the aggregates
+//
+// `sum` / `avg` / `min` / `max` fold sequentially over fewer than PARALLEL_THRESHOLD (1000) selected rows and
+// split the rows over rayon workers from 1000 on.  The property does not know about the threshold: the aggregate
+// is the aggregate of exactly the selected rows, NULLs ignored, whatever the strategy.  The tables here select
+// 999 / 1000 / 1001 / ~2500 rows; every nullable column carries its NULLs in a different place (first row, last
+// row, where a halving split cuts, directly after the extreme, everywhere).  Values are small integers or
+// multiples of 0.25 (no NaN, one zero sign): every reduction order gives the same extreme and the same f64 sum.
+
+/// (selected by `c0 = 1`?, values of the nullable columns c1..)
+type ParRow = (bool, Vec<Value>);
+
+struct ParTable {
+    name: String,
+    ty: Ty,
+    placements: Vec<String>,
+    rows: Vec<ParRow>,
+}
+
+fn par_value(ty: Ty, k: i64) -> Value {
+    if ty == Ty::Float { Value::Float(k as f64 * 0.25) } else { Value::Int(k) }
+}
+
+const PAR_PLACEMENTS: [&str; 9] = ["none", "first", "last", "halving_cuts", "after_extremes", "last_two_and_extremes_early", "alternating", "all_but_one", "all"];
+
+/// is the `k`-th of `n` selected rows NULL under the named placement?  (`lo` / `hi` = positions of the extremes)
+fn par_is_null(placement: &str, k: usize, n: usize, lo: usize, hi: usize) -> bool {
+    match placement {
+        "first" => k == 0,
+        "last" => k + 1 == n,
+        // where rayon's halving of the row vector cuts, both sides of every cut down to 1/16
+        "halving_cuts" => (1..16).any(|j| { let c = n * j / 16; k == c || k + 1 == c }),
+        "after_extremes" => k == lo + 1 || k == hi + 1,
+        "last_two_and_extremes_early" => k + 2 >= n,
+        "alternating" => k % 2 == 1,
+        "all_but_one" => k != n / 3,
+        "all" => true,
+        _ => false,
+    }
+}
+
+fn par_directed_table(ty: Ty, n_sel: usize) -> ParTable {
+    let (lo, hi) = (n_sel / 2 - 1, n_sel / 5);
+    let mut rows: Vec<ParRow> = Vec::new();
+    for k in 0..n_sel {
+        // an unselected row (values beyond both extremes, or NULL) before every 97th selected row
+        if k % 97 == 3 {
+            rows.push((false, PAR_PLACEMENTS.iter().enumerate().map(|(j, _)| if (k + j) % 2 == 0 { Value::Null } else { par_value(ty, if k % 2 == 0 { -9000 } else { 9000 }) }).collect()));
+        }
+        let base = ((k as i64 * 37) % 101) - 50;
+        let v = if k == lo { -700 } else if k == hi { 700 } else { base };
+        rows.push((true, PAR_PLACEMENTS.iter().map(|p| if par_is_null(p, k, n_sel, lo, hi) { Value::Null } else { par_value(ty, v) }).collect()));
+    }
+    rows.push((false, PAR_PLACEMENTS.iter().map(|_| par_value(ty, -9001)).collect()));
+    rows.push((false, PAR_PLACEMENTS.iter().map(|_| Value::Null).collect()));
+    ParTable { name: format!("par-{}-{n_sel}", ty_char(ty)), ty, placements: PAR_PLACEMENTS.iter().map(|s| (*s).to_string()).collect(), rows }
+}
+
+fn par_random_table(r: &mut Rng, idx: usize) -> ParTable {
+    let ty = if r.chance(1, 2) { Ty::Int } else { Ty::Float };
+    let n_sel = match r.below(6) {
+        0 => 999,
+        1 => 1000,
+        2 => 1001,
+        3 => 1000 + r.below(64) as usize,
+        4 => 2048 + r.below(3) as usize - 1,
+        _ => 1000 + r.below(1600) as usize,
+    };
+    let ncols = 3;
+    // NULL density per column: one NULL, a few, half, nearly all
+    let dens: Vec<u64> = (0..ncols).map(|_| *r.pick(&[0u64, 1, 1, 4, 32, 500, 990])).collect();
+    let tail_null: Vec<bool> = (0..ncols).map(|_| r.chance(1, 2)).collect();
+    let spread = *r.pick(&[3i64, 50, 4000]);
+    let mut rows: Vec<ParRow> = Vec::new();
+    for k in 0..n_sel {
+        if r.chance(1, 40) {
+            rows.push((false, (0..ncols).map(|_| if r.chance(1, 3) { Value::Null } else { par_value(ty, r.range(-9000, 9000)) }).collect()));
+        }
+        rows.push((true, (0..ncols).map(|j| {
+            let null = r.below(1000) < dens[j] || (tail_null[j] && k + 1 == n_sel);
+            if null { Value::Null } else { par_value(ty, r.range(-spread, spread)) }
+        }).collect()));
+    }
+    ParTable { name: format!("par-random-{idx}-{}-{n_sel}", ty_char(ty)), ty, placements: (0..ncols).map(|j| format!("density_{}_per_1000{}", dens[j], if tail_null[j] { "_and_last" } else { "" })).collect(), rows }
+}
+
+fn par_engine(ty: Ty, ncols: usize, rows: &[ParRow], hash_on_selector: bool) -> RelationalEngine {
+    let e = RelationalEngine::new();
+    let mut cols = vec![Column::new("c0".to_string(), ColumnType::Int)];
+    for j in 0..ncols {
+        cols.push(Column::new(format!("c{}", j + 1), ty_col(ty)).nullable());
+    }
+    e.create_table("t", Schema::new(cols)).expect("create_table");
+    if hash_on_selector {
+        e.create_index("t", "c0").expect("hash c0");
+    }
+    for chunk in rows.chunks(500) {
+        let maps: Vec<HashMap<String, Value>> = chunk
+            .iter()
+            .map(|(sel, vs)| {
+                let mut mp: HashMap<String, Value> = vs.iter().enumerate().map(|(j, v)| (format!("c{}", j + 1), v.clone())).collect();
+                mp.insert("c0".to_string(), Value::Int(i64::from(*sel)));
+                mp
+            })
+            .collect();
+        e.batch_insert("t", maps).expect("batch_insert");
+    }
+    e
+}
+
+fn par_answers(e: &RelationalEngine, col: &str, ec: &Condition) -> AggAns {
+    AggAns {
+        countcol: match e.count_column("t", col, ec.clone()) {
+            Ok(n) => format!("ok {n}"),
+            Err(er) => format!("err {}", err_class(&er)),
+        },
+        sum: e.sum("t", col, ec.clone()).map_or_else(|er| format!("error:{}", evar(&er)), |x| tok(&Value::Float(x))),
+        avg: e.avg("t", col, ec.clone()).map_or_else(|er| format!("error:{}", evar(&er)), |x| x.map_or("none".to_string(), |x| tok(&Value::Float(x)))),
+        min: e.min("t", col, ec.clone()).map_or_else(|er| format!("error:{}", evar(&er)), |x| x.map_or("none".to_string(), |x| tok(&x))),
+        max: e.max("t", col, ec.clone()).map_or_else(|er| format!("error:{}", evar(&er)), |x| x.map_or("none".to_string(), |x| tok(&x))),
+    }
+}
+
+fn par_agg_field<'a>(a: &'a AggAns, name: &str) -> &'a String {
+    match name {
+        "count_column" => &a.countcol,
+        "sum" => &a.sum,
+        "avg" => &a.avg,
+        "min" => &a.min,
+        _ => &a.max,
+    }
+}
+
+/// one-column table: does aggregate `name` over `c0 = 1` still differ from the aggregate of the selected values?
+fn par_fails(ty: Ty, rows: &[(bool, Value)], name: &str, hash: bool) -> Option<(String, String)> {
+    let full: Vec<ParRow> = rows.iter().map(|(s, v)| (*s, vec![v.clone()])).collect();
+    let e = par_engine(ty, 1, &full, hash);
+    let got = par_answers(&e, "c1", &Condition::Eq("c0".to_string(), Value::Int(1)));
+    let vals: Vec<Option<Value>> = rows.iter().filter(|(s, _)| *s).map(|(_, v)| Some(v.clone())).collect();
+    let want = agg_from_vals(&ColSel::Col(1), &vals);
+    let (g, w) = (par_agg_field(&got, name), par_agg_field(&want, name));
+    if g == w { None } else { Some((g.clone(), w.clone())) }
+}
+
+/// shrink a failing one-column table: drop blocks of rows (at most `budget` rebuilt engines), then replace
+/// values by one constant where the failure stays
+fn par_shrink(ty: Ty, rows: &[(bool, Value)], name: &str, hash: bool) -> Vec<(bool, Value)> {
+    let mut cur = rows.to_vec();
+    let mut budget = 160;
+    let mut chunk = cur.len() / 2;
+    while chunk >= 1 && budget > 0 {
+        let mut i = 0;
+        let mut progressed = false;
+        while i < cur.len() && budget > 0 {
+            let mut cand = cur.clone();
+            let end = (i + chunk).min(cand.len());
+            cand.drain(i..end);
+            budget -= 1;
+            if !cand.is_empty() && par_fails(ty, &cand, name, hash).is_some() {
+                cur = cand;
+                progressed = true;
+            } else {
+                i += chunk;
+            }
+        }
+        if !progressed {
+            chunk /= 2;
+        }
+    }
+    // unselected rows one by one were covered by the blocks above only partly: drop them all if possible
+    let only_sel: Vec<(bool, Value)> = cur.iter().filter(|(s, _)| *s).cloned().collect();
+    if only_sel.len() < cur.len() && par_fails(ty, &only_sel, name, hash).is_some() {
+        cur = only_sel;
+    }
+    // every non-NULL value but the first becomes the constant 1, the first becomes 0 / stays: try both
+    for keep_first in [false, true] {
+        let mut seen = false;
+        let cand: Vec<(bool, Value)> = cur
+            .iter()
+            .map(|(s, v)| {
+                if *v == Value::Null {
+                    (*s, Value::Null)
+                } else if keep_first && !seen {
+                    seen = true;
+                    (*s, par_value(ty, 0))
+                } else {
+                    (*s, par_value(ty, 1))
+                }
+            })
+            .collect();
+        if par_fails(ty, &cand, name, hash).is_some() {
+            cur = cand;
+            break;
+        }
+    }
+    cur
+}
+
+/// run-length rendering of a one-column table: `<count>x<sel><value>` joined by spaces
+fn par_show(rows: &[(bool, Value)]) -> String {
+    let mut out: Vec<String> = Vec::new();
+    let mut i = 0;
+    while i < rows.len() {
+        let mut j = i;
+        while j < rows.len() && rows[j] == rows[i] {
+            j += 1;
+        }
+        out.push(format!("{}x{}{}", j - i, if rows[i].0 { "+" } else { "-" }, tok(&rows[i].1)));
+        i = j;
+    }
+    out.join(" ")
+}
+
+fn run_par_table(t: &ParTable, rep: &mut Report, m: &mut Model, model_live: &mut bool) {
+    let ncols = t.placements.len();
+    let cond = leaf(Cmp::Eq, 0, Value::Int(1));
+    let ec = to_engine(&cond);
+    let n_sel = t.rows.iter().filter(|(s, _)| *s).count();
+    rep.case("par_agg.table", Some(&t.name));
+    rep.hit(&format!("par_agg.selected.{}", if n_sel < 1000 { "below_threshold" } else if n_sel == 1000 { "at_threshold" } else if n_sel <= 1100 { "just_above_threshold" } else { "far_above_threshold" }));
+    let engines = [("no_index", par_engine(t.ty, ncols, &t.rows, false)), ("hash_on_selector", par_engine(t.ty, ncols, &t.rows, true))];
+    // the model holds the same table (engine without index: the model's `select` scans)
+    let mut model_ok = *model_live;
+    if model_ok {
+        let ans = m.ask(&format!("new i0 {}", (0..ncols).map(|_| format!("{}1", ty_char(t.ty))).collect::<Vec<_>>().join(" ")));
+        model_ok = ans == "ok";
+        for chunk in t.rows.chunks(500) {
+            let line = format!(
+                "bins {} {}",
+                chunk.len(),
+                chunk.iter().map(|(s, vs)| format!("i{} {}", i64::from(*s), vs.iter().map(tok).collect::<Vec<_>>().join(" "))).collect::<Vec<_>>().join(" ")
+            );
+            let ma = m.ask(&line);
+            model_ok = model_ok && ma.starts_with("ok");
+        }
+    }
+    for (ename, e) in &engines {
+        let img = image(e);
+        if img.len() != t.rows.len() {
+            viol(rep, "relational_engine.batch_insert/not_all_or_nothing", &format!("{} rows inserted in batches, the full scan has {}", t.rows.len(), img.len()), json!({"table": t.name}));
+            continue;
+        }
+        let selected: Vec<&(u64, Vec<Value>)> = img.iter().filter(|(id, vs)| h_eval(&cond, *id, vs)).collect();
+        // `select` itself over the large selection
+        match e.select("t", ec.clone()) {
+            Ok(rows) => {
+                let mut ids = row_ids(&rows);
+                ids.sort_unstable();
+                let want: Vec<u64> = selected.iter().map(|(id, _)| *id).collect();
+                if ids != want {
+                    viol(rep, "relational_engine.select/wrong_rows_large_selection", &format!("select over {} matching rows ({ename}) returned {} rows", want.len(), ids.len()), json!({"table": t.name, "rows": t.rows.iter().map(|(s, vs)| format!("{}{}", if *s { "+" } else { "-" }, vs.iter().map(tok).collect::<Vec<_>>().join(","))).collect::<Vec<_>>().join(" ")}));
+                    continue;
+                }
+            },
+            Err(er) => {
+                viol(rep, "relational_engine.select/error_large_selection", &format!("select failed: {}", evar(&er)), json!({"table": t.name}));
+                continue;
+            },
+        }
+        for j in 0..ncols {
+            let cname = format!("c{}", j + 1);
+            let vals: Vec<Option<Value>> = selected.iter().map(|(_, vs)| vs.get(j + 1).cloned()).collect();
+            let want = agg_from_vals(&ColSel::Col(j + 1), &vals);
+            let got = par_answers(e, &cname, &ec);
+            rep.case(&format!("par_agg.{ename}"), None);
+            rep.hit(&format!("par_agg.placement.{}", t.placements[j].split("_per_").next().unwrap_or("")));
+            let mut flagged = false;
+            for name in ["count_column", "sum", "avg", "min", "max"] {
+                let (g, w) = (par_agg_field(&got, name), par_agg_field(&want, name));
+                if g == w {
+                    continue;
+                }
+                flagged = true;
+                let one: Vec<(bool, Value)> = t.rows.iter().map(|(s, vs)| (*s, vs[j].clone())).collect();
+                let hash = *ename == "hash_on_selector";
+                let class = format!("relational_engine.{name}/{}", if n_sel >= 1000 { "large_selection_not_over_matching_rows" } else { "not_over_matching_rows" });
+                let seen = rep.distribution.get(&format!("violation.{class}")).copied().unwrap_or(0);
+                // the same column alone, then shrunk (only for the classes's first records: each trial rebuilds an engine)
+                let (shown, outcome) = if seen < 3 {
+                    match par_fails(t.ty, &one, name, hash) {
+                        Some(_) => {
+                            let sh = par_shrink(t.ty, &one, name, hash);
+                            let o = par_fails(t.ty, &sh, name, hash);
+                            (sh, o)
+                        },
+                        None => (one, None),
+                    }
+                } else {
+                    (one, None)
+                };
+                let (g2, w2) = outcome.unwrap_or_else(|| (g.clone(), w.clone()));
+                let sel2 = shown.iter().filter(|(s, _)| *s).count();
+                viol(
+                    rep,
+                    &class,
+                    &format!("{name}(c1) WHERE c0 = 1 over {sel2} selected rows ({ename}) answered {g2}; the {name} of exactly the selected rows, NULLs ignored, is {w2}"),
+                    json!({"stream": "par_agg", "table": t.name, "placement": t.placements[j], "aggregate": name, "engine": ename, "column_type": format!("{:?}", t.ty),
+                           "schema": "c0 Int (selector), c1 nullable", "condition": "c0 = 1", "selected_rows": sel2,
+                           "rows (run-length, in insertion order: <count>x<+ selected | - not selected><c1 value>)": par_show(&shown),
+                           "answered": g2, "expected": w2}),
+                );
+            }
+            if model_ok && *ename == "no_index" {
+                let ma = m.ask(&format!("q aggs {cname} {}", to_model(&cond)));
+                let field = |k: &str| -> String {
+                    ma.split(&format!("{k}=")).nth(1).map_or(String::new(), |r| {
+                        let end = [" terms=", " min=", " max="].iter().filter_map(|t| r.find(t)).min().unwrap_or(r.len());
+                        r[..end].to_string()
+                    })
+                };
+                let (m_cc, m_terms, m_min, m_max) = (field("countcol"), field("terms"), field("min"), field("max"));
+                let (m_sum, m_avg) = fold_terms(&m_terms);
+                let mans = format!("countcol={m_cc} sum={m_sum} avg={m_avg} min={m_min} max={m_max}");
+                let imp = if flagged { &want } else { &got };
+                rep.case("model.par_agg", None);
+                rep.compare("model.par_agg", || json!({"table": t.name, "column": cname, "placement": t.placements[j], "selected": n_sel, "note": if flagged { "model vs oracle (implementation violated the property on this input)" } else { "" }}), &format!("countcol={} sum={} avg={} min={} max={}", imp.countcol, imp.sum, imp.avg, imp.min, imp.max), &mans);
+            }
+        }
+    }
+    *model_live = model_ok;
+}
+
+/// directed tables first (both column types, 999 / 1000 / 1001 / 2500 selected rows), then random ones
+fn par_aggregates(rep: &mut Report, m: &mut Model, r: &mut Rng, thorough: bool) {
+    let mut model_live = true;
+    for ty in [Ty::Int, Ty::Float] {
+        for n in [1000usize, 999, 1001, 2500] {
+            rep.hit("case.par_directed");
+            run_par_table(&par_directed_table(ty, n), rep, m, &mut model_live);
+        }
+    }
+    for idx in 0..(if thorough { 60 } else { 4 }) {
+        rep.hit("case.par_random");
+        run_par_table(&par_random_table(r, idx), rep, m, &mut model_live);
+    }
+    if !model_live {
+        rep.note("par_agg: the model driver refused a table; the stream continued real-only");
+    }
+}
+
 fn image_or_empty(e: &RelationalEngine) -> Img {
     image(e)
 }
@@ -3012,6 +3357,9 @@ fn main() {
         rep.hit("case.directed");
         run_case_shrinking(&case, &mut rep, &mut m, &mut text_budget);
     }
+    if !only_moves {
+        par_aggregates(&mut rep, &mut m, &mut root.fork("par_agg"), args.thorough);
+    }
     let rm = root.fork("moves");
     for idx in 0..(if args.thorough { 900 } else { 60 }) {
         let case = gen_moves_case(&rm, idx);
@@ -3035,6 +3383,6 @@ fn main() {
     rep.note("hash buckets of strings/bytes are modelled by content (DefaultHasher collisions only enlarge a bucket; every index hit is re-checked)");
     rep.note("JSON columns: the model carries the tree (equality, hash bucket) and the text rendered by serde_json (order, B-tree key); JSON floats are small dyadic numbers (their text parses back exactly)");
     rep.note("joins, GROUP BY / DISTINCT, ORDER BY, ALTER TABLE are not modelled; condition trees of the table streams have depth <= 3, the depth_* streams use depth <= 6 under max_condition_depth <= 6");
-    rep.note("sum / avg: the model gives the list of addends in order, the f64 additions are done by the harness; the rayon branch (>= 1000 selected rows) is exercised on integer columns only (thorough tier)");
+    rep.note("sum / avg: the model gives the list of addends in order, the f64 additions are done by the harness; the rayon branch (>= 1000 selected rows) is exercised in both tiers by the par_agg stream on nullable Int and Float columns whose sums are exact in every order (integers, multiples of 0.25)");
     rep.write(&args.out);
 }
